@@ -9,7 +9,9 @@ import ComposeVerif.Spec.Extends
    Replayed on the real code: corpus/C05/false-circular.json, corpus/C05/order-dependent-circular.json.
 2. `no_extends_left` without the `NoNull` hypothesis: a `null` base leaves the extending service
    untouched, `extends` included (masked in whole loads: the schema rejects a `null` service).
-3. (C01's finding, reproduced) `extends: {file: f}` without `service` panics.
+3. (C01's finding, repaired by `fix: extends with a non-string service or file is reported as an error
+   instead of panicking`) `extends: {file: f}` without `service` used to panic; on the repaired tree
+   it is an error — `extends_without_service_is_error`.
 -/
 namespace CV.Extends.Neg
 open CV CV.Val CV.Extends
@@ -88,11 +90,18 @@ theorem null_base_keeps_extends :
         | _ => false)
      | _ => false) = true := by decide
 
-/-- `extends: {file: o.yaml}` without `service`: the real code panics (`v["service"].(string)`) -/
+/-- `extends: {file: o.yaml}` without `service`: an error since the repair (a panic before it) -/
 def dictNoService : KVs :=
   [("services", .map [("a", .map [("extends", .map [("file", .str "o.yaml")]), ("image", .str "ia")])])]
 
-theorem extends_without_service_panics :
-    isPanic panicSite (applyExtendsOrd env ["a"] dictNoService) = true := by decide
+theorem extends_without_service_is_error :
+    isErr "extendsServiceNotString" (applyExtendsOrd env ["a"] dictNoService) = true := by decide
+
+/-- a non-string `file` likewise -/
+def dictBadFile : KVs :=
+  [("services", .map [("a", .map [("extends", .map [("service", .str "b"), ("file", .int 1)]), ("image", .str "ia")])])]
+
+theorem extends_nonstring_file_is_error :
+    isErr "extendsFileNotString" (applyExtendsOrd env ["a"] dictBadFile) = true := by decide
 
 end CV.Extends.Neg
